@@ -171,7 +171,7 @@ class V1Gen(object):
     def trap(self, enterprise=None):
         rng = self.rng
         ent, eoid = enterprise or rng.choice(self.nodes)
-        nm = self.fresh('acmeTrap')
+        nm = self.fresh(rng.choice(['acmeTrap', 'acmeTrap', 'acme-trap-']))      # SMIv1 names often carry hyphens
         num = rng.choice([0, 1, 2, 5, 6, 255, 2 ** 31 - 1])
         objs = rng.sample(self.objects, min(len(self.objects), rng.randint(0, 3))) if self.objects else []
         self.decls.append({'kind': 'trap', 'name': nm, 'enterprise': ent, 'number': num, 'variables': objs,
